@@ -202,6 +202,9 @@ structure Trace where
   /-- the guard driven directly (`guardUndo`/`guardKeep`): world and table after every
       `perform_redir` call, and the cause of the call that failed -/
   steps : Option (List (World × FdTable) × Option ErrCause) := none
+  /-- the guard driven directly: the `Option<ExitStatus>` accumulated over the `perform_redir` calls that
+      succeeded (`new.or(old)`) -/
+  cs : Option Nat := none
 
 /-- the probe built-in's I/O: one byte to descriptor 1, up to two bytes from descriptor 0 -/
 def probeIO (w : World) (t : FdTable) : World × Bool × (Option (List Nat) × Bool) :=
@@ -258,7 +261,8 @@ def runCommand (w : World) (t : FdTable) (k : Kind) (rs : List Redir) (prev : Na
     let g := performRedirs worldOracle w t rs
     match g.err with
     | some _ => { w := g.w.message g.t, t := t, status := some 2 }
-    | none => { w := g.w, t := t, status := some 0 }
+    -- `redir_exit_status.unwrap_or(exit_status)`: the status of the last command substitution in an operand
+    | none => { w := g.w, t := t, status := some ((csStatus rs).getD 0) }
   | .guardUndo | .guardKeep =>
     -- the built-in itself carries no redirection; `rs` is the list it hands to its own guard.  It
     -- prints nothing; its exit status is 2 when a `perform_redir` failed
@@ -266,7 +270,7 @@ def runCommand (w : World) (t : FdTable) (k : Kind) (rs : List Redir) (prev : Na
     { w := g.w,
       t := if k == .guardKeep && g.err.isNone then preserveRedirs g.t g.saved else undoRedirs g.t g.saved,
       status := some (if g.err.isSome then 2 else 0), saved := g.saved,
-      steps := some (performSteps worldOracle w t rs, g.err) }
+      steps := some (performSteps worldOracle w t rs, g.err), cs := csStatus (rs.take g.saved.length) }
   | _ =>
     let g := performRedirs worldOracle w t rs
     match g.err with
